@@ -420,7 +420,7 @@ func (x *pexec) do(op *Op) string {
 		return x.doReadFrom(op)
 	case "Parse":
 		return x.doParse(op, false)
-	case "WParse":
+	case "WParse", "WParseNil":
 		return x.doParse(op, true)
 	case "ParseNil":
 		return x.doParseNil(op)
@@ -614,7 +614,12 @@ func (x *pexec) doParse(op *Op, wrapped bool) string {
 		return "skip"
 	}
 	var blk *lz.Block
-	if op.Re {
+	// WParseNil: a skip through the wrapper (C14: it consumes input like a
+	// normal Parse; the reader's bytes still pass through the parser)
+	skip := op.K == "WParseNil"
+	if skip {
+		blk = nil
+	} else if op.Re {
 		blk = &x.blk
 	} else {
 		blk = &lz.Block{}
@@ -640,6 +645,10 @@ func (x *pexec) doParse(op *Op, wrapped bool) string {
 			n, err = x.parser.Parse(blk, op.F)
 		}
 	})
+	if skip {
+		name = "WParse(nil)"
+		blk = &lz.Block{}
+	}
 	if wrapped {
 		h := x.rd.HandedOut()
 		if h > handedBefore {
@@ -752,6 +761,18 @@ func (x *pexec) doParse(op *Op, wrapped bool) string {
 			x.fail("C01", "expansion_exceeds_input", "", "%s returned a block that expands to %d bytes although only %d bytes fed are not yet covered by blocks", name, bl, unparsed)
 		}
 		x.abort("n out of range")
+	}
+	if skip {
+		if n != limit {
+			x.fail("C14", "nil_count", "", "wrapped Parse(nil) with %d undelivered bytes read and BlockSize %d returned (%d, nil), want (%d, nil)", unparsed, x.bc.BlockSize, n, limit)
+			x.abort("Parse(nil) mismatch")
+		}
+		x.out = append(x.out, x.S[wBefore:wBefore+n]...)
+		x.w = wBefore + n
+		x.nilSeen = true
+		x.probe("parse_nil")
+		x.probe("parse_nil_wrapped")
+		return ob
 	}
 	// --- accounting (C03)
 	sumL, sumM := int64(0), int64(0)
